@@ -1,4 +1,4 @@
-import Ccp.Proofs.IosModels
+import Ccp.Proofs.IosMore
 /-!
 # C19 — typed IOS interface / route models report what the text says; factory transparent
 
@@ -18,11 +18,15 @@ permutation* of `d.items` interleaved with the unrelated lines `others`, every v
 unrelated line starts with no keyword).  `flatFam hdr kids` = the family C05's order visits:
 the interface line, then the children.  `Header hdr` = `interface` + name words at column 0.
 
-Not proved (correspondence only): `trunk_vlans_allowed`, the two secondary-address sets,
-`port_type` / `interface_number` / `subinterface_number` / `ordinal_list` of the interface line,
-and that `Ccp.Tree.parse` of the rendered stanza yields `flatFam` (shown on a concrete stanza
-below, `stanza_family_example`; the general statement follows from C02's `parse_links_eq_spec`
-but is not carried out here).
+An unrelated line (`Item.other`) starts with a word that is none of `description`, `mtu`, `vrf`,
+`switchport`, `channel-group`, `interface`, `shut…`; it may start with `ip` provided its second
+word is none of `address` / `mtu` / `vrf` / `ip` (`ip ospf cost 10`, `ip helper-address …`).
+Lines starting with `switchport` are never unrelated: they make the port a switchport
+(`switchport nonegotiate` is outside the theorem grammar and covered by the correspondence).
+
+Not proved (correspondence only): `ordinal_list` for names with a class word, `interface_number`
+for names written `.sub:chan` (the code keeps the `.sub` there), `add` / `remove` / `except`
+lines of `trunk_vlans_allowed`.
 -/
 namespace Ccp.C19
 open Ccp.Ios Ccp.Tree Ccp.Py
@@ -123,6 +127,119 @@ theorem route_f25_witness :
     (routeParse "ip route 10.0.0.0 255.0.0.0 name foo".toList).map
       (fun r => (r.nextHopInterface, r.routeName)) = some ("name".toList, []) := by decide +kernel
 
+/-- **The family the accessors read is the family of the parsed stanza** (`stanza_family`).
+Header `interface <name words>` at column 0 (and `i` no comment delimiter), every child the
+rendering of a valid item at indent 1, no banner start among the lines, blank lines kept:
+`Ccp.Tree.parse` gives the header exactly those children, none of them has children, and the
+record built from C05's order (`Ccp.Typed.order`, `Ccp.C05.order_spec`) is `flatFam`. -/
+theorem stanza_family (cfg : Cfg) (nm : List Str) (kids : List Item) (hv : ∀ it ∈ kids, it.Valid)
+    (hd : cfg.delims.contains 'i' = false) (hi : cfg.ignoreBlank = false)
+    (hb : ∀ x ∈ line [] (kInterface :: nm) :: kids.map Item.render, isBannerStart x = false) :
+    famOf (parse cfg (line [] (kInterface :: nm) :: kids.map Item.render)) 0 =
+      flatFam (line [] (kInterface :: nm)) kids :=
+  Ios.stanza_family cfg nm kids hv hd hi hb
+
+/-- **`intf_accessors_roundtrip` on the parsed config**: the same statement about
+`famOf (Ccp.Tree.parse cfg (header :: rendered children)) 0`, the family of line 0 of the tree
+the model builds from the stanza's text. -/
+theorem intf_accessors_on_parse (cfg : Cfg) (d : Desc) (others kids : List Item) (nm : List Str)
+    (st : Stanza d others kids) (hnm : ∀ w ∈ nm, Word w)
+    (hd : cfg.delims.contains 'i' = false) (hi : cfg.ignoreBlank = false)
+    (hb : ∀ x ∈ line [] (kInterface :: nm) :: kids.map Item.render, isBannerStart x = false) :
+    let f := famOf (parse cfg (line [] (kInterface :: nm) :: kids.map Item.render)) 0
+    description f = (d.descr.map (join [' '])).getD [] ∧
+    vrf f = (d.vrf <|> d.ipVrf).getD [] ∧
+    manualMtu f = (d.mtu.map Int.ofNat).getD (-1) ∧
+    manualIpMtu f = (d.ipMtu.map Int.ofNat).getD (-1) ∧
+    isShutdown f = d.shutdown.isSome ∧
+    ipv4Addr f = (d.addr.map (·.1)).getD [] ∧
+    ipv4Netmask f = (d.addr.map (·.2)).getD [] ∧
+    ipv4AddrObject f =
+      (match d.addr with
+       | none => .ok none
+       | some (a, m) => (match ipv4obj a m with | some r => .ok (some r) | none => .error .ipError)) ∧
+    portchannelNumber f = (d.channelGroup.map (fun c => Int.ofNat c.1)).getD (-1) ∧
+    isInPortchannel f = d.channelGroup.isSome ∧
+    isSwitchport f = .ok d.isSw ∧
+    hasManualSwitchAccess f = decide (d.mode = some kAccess) ∧
+    hasManualSwitchTrunk f = decide (d.mode = some kTrunk) ∧
+    accessVlan f = .ok ((d.accessVlan.map Int.ofNat).getD (if d.isSw then 1 else -1)) ∧
+    nativeVlan f = .ok ((d.nativeVlan.map Int.ofNat).getD (if d.isSw then 1 else -1)) := by
+  intro f
+  have hf : f = flatFam (line [] (kInterface :: nm)) kids := Ios.stanza_family cfg nm kids st.valid hd hi hb
+  rw [hf]
+  exact intf_accessors_roundtrip d others kids _ st ⟨nm, hnm, rfl⟩
+
+/-- **Secondary addresses**: when every described secondary is a canonical address with a
+contiguous netmask, the loop of `ip_secondary_addresses` / `ip_secondary_networks` collects
+exactly the described (address, prefix length) pairs (a permutation of them; the Python result
+is their set). -/
+theorem secondaries_roundtrip (d : Desc) (others kids : List Item) (hdr : Str) (st : Stanza d others kids)
+    (hok : ∀ p ∈ d.secondaries, (ipv4obj p.1 p.2).isSome = true) :
+    ∃ L, secondaries (flatFam hdr kids) = .ok L ∧
+      L.Perm (d.secondaries.filterMap (fun p => ipv4obj p.1 p.2)) ∧
+      ∀ x, x ∈ L ↔ ∃ p ∈ d.secondaries, ipv4obj p.1 p.2 = some x :=
+  secondaries_stanza st hdr hok
+
+/-- **`trunk_vlans_allowed`** (word after `allowed vlan`: `all`, `none`, or parts `lo` / `lo-hi`
+joined by commas).  Not a switchport or `switchport mode access`: empty.  Otherwise no line or
+`all`: `1 … 4094`; `none`: empty; a list: the sorted union of its parts, read through C14's
+`Ccp.Range.parse` (`Ccp.C14.parse_written_parts`). -/
+theorem trunk_vlans_roundtrip (d : Desc) (others kids : List Item) (hdr : Str) (st : Stanza d others kids)
+    (hw : ∀ v, d.allowed = some v → AllowedWord v) :
+    (d.isSw = false ∨ d.mode = some kAccess → trunkVlansAllowed (flatFam hdr kids) = .ok []) ∧
+    (d.isSw = true → d.mode ≠ some kAccess →
+      (d.allowed = none ∨ d.allowed = some kAll → trunkVlansAllowed (flatFam hdr kids) = .ok (Range.upto 1 4094)) ∧
+      (d.allowed = some kNone → trunkVlansAllowed (flatFam hdr kids) = .ok []) ∧
+      (∀ ps, ps ≠ [] → d.allowed = some (Range.renderParts ps) →
+        trunkVlansAllowed (flatFam hdr kids) = .ok (Range.sortedSet (ps.flatMap Range.expandPart)))) :=
+  trunkVlansAllowed_stanza st hdr hw
+
+/-- **`port_type`** of `interface <prefix><rest>`: the prefix, for a non-empty run of letters and
+hyphens followed by something that starts with neither (the number). -/
+theorem port_type_roundtrip (p rest : Str) (hp : p ≠ []) (hpc : ∀ c ∈ p, isAlphaHyphen c = true)
+    (hr : ∀ c, rest.head? = some c → isAlphaHyphen c = false) :
+    portType (kInterface ++ ' ' :: p ++ rest) = p :=
+  portType_hdr p rest hp hpc hr
+
+/-- **`ordinal_list`** of `interface <name>` for a one-word name: (slot, card, port, subinterface,
+channel, -1) as C15's parser reads them, `-1` for an absent component; with
+`Ccp.C15.name_roundtrip`, for every well-formed description without class word these are the
+described components (the rendering has no whitespace — hypothesis `Word s`). -/
+theorem ordinal_list_roundtrip (d : Intf.Intf) (h : C15.WellFormed d) :
+    ∃ s, Intf.render d = .ok s ∧
+      (Word s → ordinalList (line [] [kInterface, s]) =
+        some [optI d.slot, optI d.card, Int.ofNat d.port, optI d.sub, optI d.chan, -1]) := by
+  obtain ⟨s, hr, hp⟩ := C15.name_roundtrip d h
+  exact ⟨s, hr, fun hs => ordinalList_hdr s hs d hp⟩
+
+/-- **`subinterface_number`** of `interface <prefix><digits><more>[ <class words>]`: the whole
+number word `digits ++ more` (`2/0.100`, `1/0:3.7`).  `TailOk tl`: nothing, or one blank and
+words separated by single blanks (what `(\s\S+)*\s*$` accepts). -/
+theorem subinterface_number_roundtrip (p ds more tl : Str) (hp : p ≠ []) (hpc : ∀ c ∈ p, isAlphaHyphen c = true)
+    (hds : ds ≠ []) (hdd : ∀ c ∈ ds, isDigit c = true)
+    (hm : ∀ c ∈ more, isSpace c = false) (hmh : ∀ c, more.head? = some c → isDigit c = false)
+    (ht : TailOk tl) :
+    subinterfaceNumber (kInterface ++ ' ' :: p ++ (ds ++ more ++ tl)) = some (ds ++ more) :=
+  subinterfaceNumber_hdr p ds more tl hp hpc hds hdd hm hmh ht
+
+/-- **`interface_number`** of `interface <prefix><digits><mid>[.<sub>][ <class words>]`: the number
+word without the trailing subinterface (`2/0` for `2/0.100`, `1/0:3` for `1/0:3.7`); `mid` has
+no whitespace and no dot. -/
+theorem interface_number_roundtrip (p ds mid tl : Str) (sub : Option Str) (hp : p ≠ [])
+    (hpc : ∀ c ∈ p, isAlphaHyphen c = true) (hds : ds ≠ []) (hdd : ∀ c ∈ ds, isDigit c = true)
+    (hm : ∀ c ∈ mid, isSpace c = false ∧ c ≠ '.') (hmh : ∀ c, mid.head? = some c → isDigit c = false)
+    (hs : ∀ s, sub = some s → s ≠ [] ∧ ∀ c ∈ s, isDigit c = true) (ht : TailOk tl) :
+    interfaceNumber (kInterface ++ ' ' :: p ++ (ds ++ (mid ++ (dotSub sub ++ tl)))) = some (ds ++ mid) :=
+  interfaceNumber_hdr p ds mid tl sub hp hpc hds hdd hm hmh hs ht
+
+-- non-vacuity: ` point-to-point` is an accepted tail, two blanks between class words are not
+example : TailOk " point-to-point".toList ∧ ¬ TailOk " a  b".toList := by
+  refine ⟨Or.inr ⟨⟨_, rfl⟩, by decide +kernel⟩, ?_⟩
+  rintro (h | ⟨_, h⟩)
+  · cases h
+  · revert h; decide +kernel
+
 /-- **Factory transparency** (model level): the texts, parent links and hence the derived child
 lists of a parse are a function of the syntax flag, the comment delimiters, `ignore_blank_lines`
 and the lines — the tree builder has no class / factory input.  Whether the real factory accepts
@@ -146,16 +263,17 @@ def exDesc : Desc :=
     mode := none, accessVlan := some 10, nativeVlan := none, allowed := none, channelGroup := some (5, ["mode".toList, "on".toList]) }
 
 def exKids : List Item :=
-  [.other ["no".toList, "cdp".toList], .secondary "10.0.1.1".toList "255.255.255.0".toList, .mtu 1500,
+  [.other ["no".toList, "cdp".toList], .other ["ip".toList, "ospf".toList, "cost".toList, "10".toList], .secondary "10.0.1.1".toList "255.255.255.0".toList, .mtu 1500,
    .channelGroup 5 ["mode".toList, "on".toList], .descr ["to".toList, "core".toList], .accessVlan 10,
    .shutdown "shutdown".toList, .addr "10.0.0.1".toList "255.255.255.0".toList, .vrf "BLUE".toList]
 
 def exHdr : Str := "interface GigabitEthernet0/1".toList
 
 -- the children above are a permutation of the description's lines plus one unrelated line
-example : exKids.Perm (exDesc.items ++ [.other ["no".toList, "cdp".toList]]) := by decide +kernel
+example : exKids.Perm (exDesc.items ++ [.other ["no".toList, "cdp".toList],
+    .other ["ip".toList, "ospf".toList, "cost".toList, "10".toList]]) := by decide +kernel
 example : (exKids.map Item.render).take 3 =
-    [" no cdp".toList, " ip address 10.0.1.1 255.255.255.0 secondary".toList, " mtu 1500".toList] := by decide +kernel
+    [" no cdp".toList, " ip ospf cost 10".toList, " ip address 10.0.1.1 255.255.255.0 secondary".toList] := by decide +kernel
 -- the model's accessors on the rendered stanza (computed, not via the theorem)
 example : manualMtu (flatFam exHdr exKids) = 1500 ∧ description (flatFam exHdr exKids) = "to core".toList ∧
     vrf (flatFam exHdr exKids) = "BLUE".toList ∧ ipv4Addr (flatFam exHdr exKids) = "10.0.0.1".toList ∧
@@ -166,6 +284,15 @@ example : manualMtu (flatFam exHdr exKids) = 1500 ∧ description (flatFam exHdr
 -- C05's order yields on the parsed stanza
 theorem stanza_family_example :
     famOf (parse exCfg (exHdr :: exKids.map Item.render)) 0 = flatFam exHdr exKids := by decide +kernel
+-- trunk_vlans_allowed / secondaries / ordinal_list on concrete inputs
+example : AllowedWord "1-3,7".toList := by
+  have : "1-3,7".toList = Range.renderParts [(1, some 3), (7, none)] := by decide +kernel
+  rw [this]; exact AllowedWord.list _ (by simp)
+example : (secondaries (flatFam exHdr exKids)).toOption = some [("10.0.1.1".toList, 24)] := by decide +kernel
+example : ordinalList "interface Serial4/1/2.9:5".toList = some [4, 1, 2, 9, 5, -1] ∧
+    portType "interface Serial4/1/2.9:5".toList = "Serial".toList ∧
+    interfaceNumber "interface ATM2/0.100 point-to-point".toList = some "2/0".toList ∧
+    subinterfaceNumber "interface ATM2/0.100 point-to-point".toList = some "2/0.100".toList := by decide +kernel
 example : maskLen "255.255.255.0".toList = some 24 ∧ maskLen "0.0.0.0".toList = some 0 ∧
     maskLen "255.255.255.255".toList = some 32 ∧ maskLen "255.0.255.0".toList = none := by decide +kernel
 
